@@ -166,3 +166,8 @@
 (declare-fun diagSeverity (Iface) Int)
 (declare-fun diagDescId (Iface) Int)
 (declare-fun diagExtra (Iface) Iface)
+
+; ---- C06: characters of a sub-path that url.URL.String() leaves unescaped in a path ----
+(define-fun reUrlSafe () RegLan (re.* (re.union (re.range "a" "z") (re.range "A" "Z") (re.range "0" "9")
+   (str.to_re "-") (str.to_re "_") (str.to_re ".") (str.to_re "~") (str.to_re "$") (str.to_re "&") (str.to_re "+") (str.to_re ",") (str.to_re "/") (str.to_re ":") (str.to_re ";") (str.to_re "=") (str.to_re "@"))))
+(define-fun urlSafePath ((s String)) Bool (str.in_re s reUrlSafe))
